@@ -7,9 +7,12 @@ Theorem-backed: cell-map injectivity (no two text cells of a map name the same g
 map size), the closed forms `line = i + 2j (+ const)`, the reader of every class keeps every token at its computed index
 (`read_keeps_every_token`), the Cartesian reader exactly (`cart_read_exact`), the
 Cartesian writer's soundness on non-negative indices (`cart_write_read_id_partial`: whatever it draws reads back
-to the contents; `cart_read_write_read_id`: read, written, read again gives the same contents), for EVERY class the completeness theorem
+to the contents; `cart_read_write_read_id`: read, written, read again gives the same contents; `cart_read_write_id`: re-drawing what was read reproduces the
+text up to the trimming of trailing placeholders), for EVERY class the completeness theorem
 `write_read_complete_partial` (a drawing reads back with every label at its own index unless the outline inferred from
-the data misses a cell or the reader re-infers other dimensions — the two classes the known findings are filed under), cumulative block elevations, link resolution over
+the data misses a cell or the reader re-infers other dimensions — the two classes the known findings are filed under), and for third-core maps of ANY radius that the dimension
+inference recovers the outline (`third_dims_complete`, `third_write_read_id_partial`: complete maps, and maps with holes away
+from the two anchor cells, are drawn completely), cumulative block elevations, link resolution over
 a DAG / rejection of cycles and unknown targets, exact placement / refusal of unknown specifiers.
 Correspondence-only (harness/c18.py): whole read/write round trips of the maps (exhaustive small +
 generated), component construction, materials, thermal expansion, composition.
@@ -840,7 +843,8 @@ theorem full_cell_inverse (M o i j : Int) :
 If (1) every data cell lies inside the window the writer inferred from the data (`hwin`), (2) the reader
 re-infers the writer's dimensions from the drawn lines (`hre`), and (3, tips-up maps, whose lines are counted
 from the top) no leading row was dropped (`htop`), then whatever `gridContentsToAscii` draws reads back with
-every label of the contents at its own index — nothing lost, nothing moved. These three hypotheses are exactly
+every label of the contents at its own index — nothing lost, nothing moved (third-core maps need no (2):
+their cell map does not depend on the inferred dimensions). These three hypotheses are exactly
 the negations of the classes under which the known incomplete drawings are filed (outline inference / reader
 re-inference), so in the model there is no other way to draw incompletely. `_partial`: labels that are data;
 that nothing is invented is not stated here. -/
@@ -849,7 +853,7 @@ theorem write_read_complete_partial (k : Kind) (L : Labels) (m : AMap) (M o W H 
     (hdata : ∀ p ∈ L, IsData p.2)
     (hwin : ∀ p ∈ L, ∃ c l, 0 ≤ c ∧ c < W ∧ 0 ≤ l ∧ l < H ∧ cellOf k M o c l = p.1)
     (hw : gridContentsToAscii k L = some m)
-    (hre : readerDims k m.lines = (M, o))
+    (hre : k ≠ .third → readerDims k m.lines = (M, o))
     (htop : k = .tips → m.lines.length = H.toNat) :
     ∃ m', readAscii k m.lines = some m' ∧
       ∀ cell v, get? L cell = some v → get? m'.labels cell = some v := by
@@ -914,7 +918,10 @@ theorem write_read_complete_partial (k : Kind) (L : Labels) (m : AMap) (M o W H 
       · have h1' : ¬ (((0 : Nat) : Int) ≤ l ∧ 0 ≤ c) := by omega
         have h3 : ¬ (0 ≤ l ∧ 0 ≤ c ∧ l.toNat < H.toNat - kd) := fun h => h1 ⟨h.1, h.2.1⟩
         rw [if_neg h1', if_neg h3]
-    have hrd : readerDims k r = (M, o) := by rw [← hml]; exact hre
+    have hrd : readLabels k (readerDims k r).1 (readerDims k r).2 r = readLabels k M o r := by
+      by_cases hk3 : k = .third
+      · subst hk3; rfl
+      · have := hre hk3; rw [hml] at this; rw [this]
     have hlab : ∀ c l, 0 ≤ l → get? (readLabels k M o r) (cellOf k M o c l) =
         if 0 ≤ l ∧ 0 ≤ c ∧ l.toNat < H.toNat - kd then (removeTrailing (row l))[c.toNat]? else none := by
       intro c l hl; rw [read_keeps_every_token k M o r c l hl, hlook]
@@ -1006,6 +1013,530 @@ theorem write_read_complete_partial (k : Kind) (L : Labels) (m : AMap) (M o W H 
     exact hcell cell v hg
 
 
+
+private theorem foldl_max_le : ∀ (xs : List Int) (a b : Int), a ≤ b → (∀ y ∈ xs, y ≤ b) → xs.foldl max a ≤ b := by
+  intro xs
+  induction xs with
+  | nil => intro a b h _; simpa using h
+  | cons x xs ih =>
+    intro a b h hall
+    simp only [List.foldl_cons]
+    apply ih
+    · have := hall x List.mem_cons_self; omega
+    · intro y hy; exact hall y (List.mem_cons_of_mem _ hy)
+
+private theorem foldl_max_ge' : ∀ (xs : List Int) (a : Int),
+    a ≤ xs.foldl max a ∧ ∀ y ∈ xs, y ≤ xs.foldl max a := by
+  intro xs
+  induction xs with
+  | nil => intro a; simp
+  | cons x xs ih =>
+    intro a
+    simp only [List.foldl_cons]
+    obtain ⟨h1, h2⟩ := ih (max a x)
+    refine ⟨by omega, ?_⟩
+    intro y hy
+    rcases List.mem_cons.mp hy with rfl | hy
+    · omega
+    · exact h2 y hy
+
+/-- the maximum of a list that contains its upper bound -/
+private theorem maxD_eq (d b : Int) (l : List Int) (hmem : b ∈ l) (hub : ∀ x ∈ l, x ≤ b) : maxD d l = b := by
+  cases l with
+  | nil => cases hmem
+  | cons a as =>
+    simp only [maxD]
+    have h1 : as.foldl max a ≤ b :=
+      foldl_max_le as a b (hub a List.mem_cons_self) (fun y hy => hub y (List.mem_cons_of_mem _ hy))
+    obtain ⟨h2, h3⟩ := foldl_max_ge' as a
+    have h4 : b ≤ as.foldl max a := by
+      rcases List.mem_cons.mp hmem with rfl | hm
+      · exact h2
+      · exact h3 b hm
+    omega
+
+private theorem maxD_empty (d : Int) : maxD d [] = d := rfl
+
+/-- **dimension inference recovers the outline of a third-core map** of any radius `M` as soon as the two
+anchor cells of the corner inference, `(M, 0)` and (for `M ≥ 1`) `(M - 1, 1)`, hold data and no cell lies
+beyond ring `M` (`i + j ≤ M`; a one-cell map `M = 0` has nothing on the `j = 1` ray): no corner line is cut, `M + 1` columns, `2M + 1` lines. Holes anywhere else do
+not matter. -/
+theorem third_dims_complete (L : Labels) (M : Int) (hM : 0 ≤ M)
+    (hring : ∀ p ∈ L, p.1.1 + p.1.2 ≤ M)
+    (hA : ∃ v, ((M, 0), v) ∈ L)
+    (hB : 1 ≤ M → ∃ v, ((M - 1, 1), v) ∈ L)
+    (hB0 : M = 0 → ∀ p ∈ L, p.1.2 ≠ 1) :
+    dimsFromData .third L = some (M, 0, M + 1, M * 2 + 1 - 0) := by
+  obtain ⟨vA, hAm⟩ := hA
+  have hne : L.isEmpty = false := by cases L with | nil => cases hAm | cons _ _ => rfl
+  unfold dimsFromData
+  simp only [hne, Bool.false_eq_true, ↓reduceIte]
+  -- ijMax
+  have hij : maxD 0 ((L.map (·.1)).map (fun c => c.1 + c.2)) = M := by
+    apply maxD_eq
+    · exact List.mem_map.mpr ⟨(M, 0), List.mem_map.mpr ⟨_, hAm, rfl⟩, by simp⟩
+    · intro x hx
+      obtain ⟨c, hc, rfl⟩ := List.mem_map.mp hx
+      obtain ⟨p, hp, rfl⟩ := List.mem_map.mp hc
+      exact hring p hp
+  -- outermost data on the j = 0 ray
+  have h0 : maxD (-1) (((L.map (·.1)).filter (fun c => c.2 == 0)).map (·.1)) = M := by
+    apply maxD_eq
+    · refine List.mem_map.mpr ⟨(M, 0), List.mem_filter.mpr ⟨List.mem_map.mpr ⟨_, hAm, rfl⟩, by simp⟩, rfl⟩
+    · intro x hx
+      obtain ⟨c, hc, rfl⟩ := List.mem_map.mp hx
+      obtain ⟨hc1, hc2⟩ := List.mem_filter.mp hc
+      obtain ⟨p, hp, rfl⟩ := List.mem_map.mp hc1
+      have := hring p hp
+      have h2 : p.1.2 = 0 := by simpa using hc2
+      omega
+  -- and on the j = 1 ray
+  have h1 : maxD (-1) (((L.map (·.1)).filter (fun c => c.2 == 1)).map (·.1)) = M - 1 := by
+    by_cases hM1 : 1 ≤ M
+    · obtain ⟨vB, hBm⟩ := hB hM1
+      apply maxD_eq
+      · refine List.mem_map.mpr ⟨(M - 1, 1), List.mem_filter.mpr ⟨List.mem_map.mpr ⟨_, hBm, rfl⟩, by simp⟩, rfl⟩
+      · intro x hx
+        obtain ⟨c, hc, rfl⟩ := List.mem_map.mp hx
+        obtain ⟨hc1, hc2⟩ := List.mem_filter.mp hc
+        obtain ⟨p, hp, rfl⟩ := List.mem_map.mp hc1
+        have := hring p hp
+        have h2 : p.1.2 = 1 := by simpa using hc2
+        omega
+    · -- M = 0: nothing on the j = 1 ray at all
+      have hM0 : M = 0 := by omega
+      have hnil : ((L.map (·.1)).filter (fun c => c.2 == 1)).map (·.1) = [] := by
+        rw [List.map_eq_nil_iff, List.filter_eq_nil_iff]
+        intro c hc
+        obtain ⟨p, hp, rfl⟩ := List.mem_map.mp hc
+        have := hB0 hM0 p hp
+        simpa using this
+      rw [hnil, maxD_empty]; omega
+  simp only [hij, h0, h1]
+  simp
+
+
+/-- a cell of the hexagon of radius `M` that lies in the sector a third-core map draws (on or above the bottom
+text line and on or right of the left edge of its line) has a position in the `(M+1) × (2M+1)` window -/
+theorem third_window (M o i j : Int)
+    (hi : i ≤ M) (hij : i + j ≤ M) (hj : j ≤ M)
+    (hbot : 0 ≤ i + 2 * j) (hleft : (thirdBase (i + 2 * j)).1 ≤ i) :
+    ∃ c l, 0 ≤ c ∧ c < M + 1 ∧ 0 ≤ l ∧ l < M * 2 + 1 - 0 ∧ cellOf .third M o c l = (i, j) := by
+  refine ⟨(thirdBase (i + 2 * j)).2 - j, i + 2 * j, ?_, ?_, hbot, by omega, third_cell_inverse M o i j⟩
+  · have h := third_cell_inverse M o i j
+    simp only [cellOf, Prod.mk.injEq] at h
+    omega
+  · have h := third_cell_inverse M o i j
+    simp only [cellOf, Prod.mk.injEq] at h
+    have hb : -(M * 2) ≤ 3 * (thirdBase (i + 2 * j)).1 := by
+      unfold thirdBase
+      simp only []
+      split
+      · simp only []; omega
+      · split
+        · simp only []; omega
+        · split <;> (simp only []; omega)
+    omega
+
+/-- **third-core maps, write then read, any radius** (`_partial`: data labels; "nothing invented" not stated):
+contents that stay inside the hexagon of radius `M` and the sector the map draws, and hold data at the two
+anchor cells `(M, 0)` and `(M - 1, 1)` of the corner inference — in particular every complete (hole-free,
+non-truncated) third-core map — are drawn, and the drawing reads back with every label at its own index. -/
+theorem third_write_read_id_partial (L : Labels) (m : AMap) (M : Int) (hM : 0 ≤ M)
+    (hdata : ∀ p ∈ L, IsData p.2)
+    (hhex : ∀ p ∈ L, p.1.1 ≤ M ∧ p.1.1 + p.1.2 ≤ M ∧ p.1.2 ≤ M)
+    (hsector : ∀ p ∈ L, 0 ≤ p.1.1 + 2 * p.1.2 ∧ (thirdBase (p.1.1 + 2 * p.1.2)).1 ≤ p.1.1)
+    (hA : ∃ v, ((M, 0), v) ∈ L)
+    (hB : 1 ≤ M → ∃ v, ((M - 1, 1), v) ∈ L)
+    (hB0 : M = 0 → ∀ p ∈ L, p.1.2 ≠ 1)
+    (hw : gridContentsToAscii .third L = some m) :
+    ∃ m', readAscii .third m.lines = some m' ∧
+      ∀ cell v, get? L cell = some v → get? m'.labels cell = some v := by
+  have hdim := third_dims_complete L M hM (fun p hp => (hhex p hp).2.1) hA hB hB0
+  apply write_read_complete_partial .third L m M 0 (M + 1) (M * 2 + 1 - 0) hdim hdata _ hw
+  · intro h; exact absurd rfl h
+  · intro h; cases h
+  · intro p hp
+    obtain ⟨h1, h2, h3⟩ := hhex p hp
+    obtain ⟨h4, h5⟩ := hsector p hp
+    exact third_window M 0 p.1.1 p.1.2 h1 h2 h3 h4 h5
+
+
+
+/-! keys of a dictionary built with `put` stay unique -/
+private theorem put_keys (m : Labels) (k : Cell) (v : String) :
+    (put m k v).map (·.1) = if m.any (fun p => p.1 == k) then m.map (·.1) else m.map (·.1) ++ [k] := by
+  unfold put
+  split
+  · rw [List.map_map]; apply List.map_congr_left; intro p _
+    simp only [Function.comp_def]; split
+    · rename_i h; simpa using (by simpa using h : p.1 = k).symm
+    · rfl
+  · simp
+
+private theorem put_nodup (m : Labels) (k : Cell) (v : String) (h : (m.map (·.1)).Nodup) :
+    ((put m k v).map (·.1)).Nodup := by
+  rw [put_keys]
+  split
+  · exact h
+  · rename_i hk
+    rw [List.nodup_append]
+    refine ⟨h, by simp, ?_⟩
+    intro a ha b hb
+    simp at hb; subst hb
+    intro hab; subst hab
+    apply hk
+    obtain ⟨p, hp, rfl⟩ := List.mem_map.mp ha
+    exact List.any_eq_true.mpr ⟨p, hp, by simp⟩
+
+private theorem foldl_put_nodup {α} (f : α → Cell × String) : ∀ (xs : List α) (acc : Labels),
+    (acc.map (·.1)).Nodup → ((xs.foldl (fun a x => put a (f x).1 (f x).2) acc).map (·.1)).Nodup := by
+  intro xs
+  induction xs with
+  | nil => intro acc h; exact h
+  | cons x xs ih => intro acc h; simp only [List.foldl_cons]; exact ih _ (put_nodup _ _ _ h)
+
+theorem readLabels_keys_nodup (k : Kind) (M o : Int) (lines : List (List String)) :
+    ((readLabels k M o lines).map (·.1)).Nodup := by
+  unfold readLabels
+  simp only []
+  generalize (enum (if k = Kind.tips then lines else lines.reverse)) = rows
+  suffices h : ∀ (rows : List (Int × List String)) (acc : Labels), (acc.map (·.1)).Nodup →
+      ((rows.foldl (fun acc (ll : Int × List String) =>
+        (enum ll.2).foldl (fun acc2 (ct : Int × String) => put acc2 (cellOf k M o ct.1 ll.1) ct.2) acc) acc).map (·.1)).Nodup by
+    exact h rows [] (by simp)
+  intro rows
+  induction rows with
+  | nil => intro acc h; exact h
+  | cons ll rows ih =>
+    intro acc h
+    simp only [List.foldl_cons]
+    apply ih
+    exact foldl_put_nodup (fun (ct : Int × String) => (cellOf k M o ct.1 ll.1, ct.2)) (enum ll.2) acc h
+
+/-- looking a key up in the data part of a dictionary with unique keys -/
+theorem get?_dataOf (m : Labels) (h : (m.map (·.1)).Nodup) (cell : Cell) :
+    get? (dataOf m) cell = (get? m cell).filter (· != PLACEHOLDER) := by
+  induction m with
+  | nil => rfl
+  | cons p m ih =>
+    simp only [List.map_cons, List.nodup_cons] at h
+    have ih' := ih h.2
+    by_cases hk : p.1 = cell
+    · have hb : (p.1 == cell) = true := by simpa using hk
+      have hnone : get? m cell = none := by
+        unfold get?
+        have : m.find? (fun q => q.1 == cell) = none := by
+          rw [List.find?_eq_none]; intro q hq hc
+          apply h.1; rw [hk]
+          exact List.mem_map.mpr ⟨q, hq, by simpa using hc⟩
+        simp [this]
+      by_cases hv : (p.2 != PLACEHOLDER) = true
+      · simp [dataOf, List.filter_cons, hv, get?, List.find?_cons, hb, Option.filter]
+      · have hv' : (p.2 != PLACEHOLDER) = false := by simpa using hv
+        have : dataOf (p :: m) = dataOf m := by simp [dataOf, List.filter_cons, hv']
+        rw [this, ih', hnone]
+        simp [get?, List.find?_cons, hb, Option.filter, hv']
+    · have hb : (p.1 == cell) = false := by simpa using hk
+      have hstep : get? (p :: m) cell = get? m cell := by simp [get?, List.find?_cons, hb]
+      rw [hstep, ← ih']
+      by_cases hv : (p.2 != PLACEHOLDER) = true
+      · simp [dataOf, List.filter_cons, hv, get?, List.find?_cons, hb]
+      · have hv' : (p.2 != PLACEHOLDER) = false := by simpa using hv
+        simp [dataOf, List.filter_cons, hv']
+
+
+private theorem dropWhile_append_of_all {α} (p : α → Bool) : ∀ (as bs : List α), (∀ x ∈ as, p x = true) →
+    (as ++ bs).dropWhile p = bs.dropWhile p := by
+  intro as
+  induction as with
+  | nil => intro bs _; rfl
+  | cons a as ih =>
+    intro bs h
+    simp only [List.cons_append, List.dropWhile_cons, h a List.mem_cons_self, ↓reduceIte]
+    exact ih bs (fun x hx => h x (List.mem_cons_of_mem _ hx))
+
+/-- trailing placeholders do not matter to `_removeTrailingPlaceholders` -/
+theorem removeTrailing_append_placeholders (ys zs : List String) (h : ∀ t ∈ zs, t = PLACEHOLDER) :
+    removeTrailing (ys ++ zs) = removeTrailing ys := by
+  unfold removeTrailing
+  rw [List.reverse_append, dropWhile_append_of_all]
+  intro x hx
+  have := h x (List.mem_reverse.mp hx)
+  simp [this]
+
+private theorem list_eq_map_pyRange {α} (xs : List α) (d : α) :
+    xs = (pyRange xs.length).map (fun l => xs[l.toNat]?.getD d) := by
+  apply List.ext_getElem?
+  intro i
+  simp only [List.getElem?_map, pyRange, List.getElem?_range]
+  by_cases h : i < xs.length
+  · simp [h, List.getElem?_eq_getElem h]
+  · have : xs.length ≤ i := by omega
+    simp [h, List.getElem?_eq_none this]
+
+
+/-- **Cartesian maps: re-drawing what was read reproduces the text** (up to the documented trimming of trailing
+placeholders). For a text whose tokens are data labels or placeholders and whose every line holds some data:
+read it, keep the data (as the grid blueprint does), draw that; if the writer does not refuse, the drawn lines
+are the lines of the text with their trailing placeholders removed — same number of lines, same tokens. -/
+theorem cart_read_write_id (lines : List (List String)) (m m2 : AMap)
+    (htok : ∀ row ∈ lines, ∀ t ∈ row, t = PLACEHOLDER ∨ IsData t)
+    (hrowdata : ∀ row ∈ lines, ∃ t ∈ row, IsData t)
+    (hr : readAscii .cart lines = some m)
+    (hw : gridContentsToAscii .cart (dataOf m.labels) = some m2) :
+    m2.lines = lines.map removeTrailing := by
+  have hlab : m.labels = readLabels .cart 0 0 lines := readAscii_labels .cart lines m hr
+  have hnd := readLabels_keys_nodup .cart 0 0 lines
+  generalize hL : dataOf m.labels = L at hw
+  -- what the contents hold at each index, in terms of the text
+  have hget : ∀ c l, get? L (c, l) = (rowsLookup lines.reverse 0 c l).filter (· != PLACEHOLDER) := by
+    intro c l
+    rw [← hL, hlab, get?_dataOf _ hnd, cart_read_exact]
+  have hLdata : ∀ p ∈ L, IsData p.2 := by
+    intro p hp
+    rw [← hL] at hp
+    obtain ⟨hp', hne⟩ := List.mem_filter.mp hp
+    rw [hlab] at hp'
+    obtain ⟨_, _, row, hrow, hin⟩ := readLabels_cart_mem 0 0 lines p hp'
+    rcases htok row hrow p.2 hin with h | h
+    · simp [h] at hne
+    · exact h
+  have hLnd : (L.map (·.1)).Nodup := by
+    rw [← hL, hlab]
+    exact List.Nodup.sublist (List.Sublist.map _ List.filter_sublist) hnd
+  have hLget : ∀ p ∈ L, get? L p.1 = some p.2 := by
+    intro p hp
+    clear hget hLdata hL hw
+    induction L with
+    | nil => cases hp
+    | cons q L ih =>
+      simp only [List.map_cons, List.nodup_cons] at hLnd
+      rcases List.mem_cons.mp hp with rfl | hp'
+      · simp [get?]
+      · have hne : (q.1 == p.1) = false := by
+          simp; intro hc; apply hLnd.1; rw [hc]; exact List.mem_map.mpr ⟨p, hp', rfl⟩
+        have := ih hLnd.2 hp'
+        simpa [get?, List.find?_cons, hne] using this
+  -- rows of the text from the bottom
+  let rows := lines.reverse
+  have hrowsLookup : ∀ c l, rowsLookup rows 0 c l =
+      if 0 ≤ l ∧ 0 ≤ c then (rows[l.toNat]?).bind (fun row => row[c.toNat]?) else none := by
+    intro c l; unfold rowsLookup
+    have : (l - ((0 : Nat) : Int)).toNat = l.toNat := by omega
+    simp only [this]
+    by_cases h : 0 ≤ l ∧ 0 ≤ c
+    · have h' : ((0 : Nat) : Int) ≤ l ∧ 0 ≤ c := by omega
+      rw [if_pos h, if_pos h']
+    · have h' : ¬ (((0 : Nat) : Int) ≤ l ∧ 0 ≤ c) := by omega
+      rw [if_neg h, if_neg h']
+  -- every entry of the contents sits inside the text
+  have hLbound : ∀ p ∈ L, 0 ≤ p.1.1 ∧ 0 ≤ p.1.2 ∧ p.1.2.toNat < lines.length := by
+    intro p hp
+    have h1 := hLget p hp
+    obtain ⟨⟨c, l⟩, v⟩ := p
+    simp only at h1 ⊢
+    rw [hget, hrowsLookup] at h1
+    by_cases h : 0 ≤ l ∧ 0 ≤ c
+    · rw [if_pos h] at h1
+      refine ⟨h.2, h.1, ?_⟩
+      rcases Nat.lt_or_ge l.toNat lines.length with h2 | h2
+      · exact h2
+      · have : rows[l.toNat]? = none := List.getElem?_eq_none (by simp [rows]; exact h2)
+        simp [this, Option.filter] at h1
+    · rw [if_neg h] at h1; simp [Option.filter] at h1
+  -- unfold the writer
+  unfold gridContentsToAscii at hw
+  cases hdim : dimsFromData .cart L with
+  | none => simp [hdim] at hw
+  | some dims =>
+    obtain ⟨M, o, W, H⟩ := dims
+    simp only [hdim] at hw
+    have hk : (Kind.cart = Kind.tips) = False := by simp
+    simp only [hk, ↓reduceIte] at hw
+    unfold dimsFromData at hdim
+    by_cases hLe : L.isEmpty = true
+    · simp [hLe] at hdim
+    simp only [hLe, Bool.false_eq_true, ↓reduceIte] at hdim
+    split at hdim
+    · cases hdim
+    simp only [Option.some.injEq, Prod.mk.injEq] at hdim
+    obtain ⟨_, _, hW, hH⟩ := hdim
+    have hbW : ∀ p ∈ L, p.1.1 < W := by
+      intro p hp
+      have := maxD_ge 0 ((L.map (·.1)).map (·.1)) p.1.1 (List.mem_map.mpr ⟨p.1, List.mem_map.mpr ⟨p, hp, rfl⟩, rfl⟩)
+      omega
+    have hbH : ∀ p ∈ L, p.1.2 < H := by
+      intro p hp
+      have := maxD_ge 0 ((L.map (·.1)).map (·.2)) p.1.2 (List.mem_map.mpr ⟨p.1, List.mem_map.mpr ⟨p, hp, rfl⟩, rfl⟩)
+      omega
+    -- a token of the text, seen from the contents
+    have hrowslen : rows.length = lines.length := by simp [rows]
+    have hcelldata : ∀ (l c : Nat) (row : List String) (t : String), rows[l]? = some row → row[c]? = some t → IsData t →
+        get? L ((c : Int), (l : Int)) = some t := by
+      intro l c row t h1 h2 h3
+      rw [hget, hrowsLookup, if_pos ⟨by omega, by omega⟩]
+      simp only [Int.toNat_natCast, h1, Option.bind_some, h2]
+      have : (t != PLACEHOLDER) = true := by simpa using h3.2.2.1
+      simp [Option.filter, this]
+    have hlinesne : 0 < lines.length := by
+      cases hLL : L with
+      | nil => simp [hLL] at hLe
+      | cons p ps =>
+        have := (hLbound p (by rw [hLL]; exact List.mem_cons_self)).2.2
+        omega
+    -- the number of drawn lines is the number of text lines
+    have hHeq : H = (lines.length : Int) := by
+      have hub : ∀ x ∈ (L.map (·.1)).map (·.2), x ≤ (lines.length : Int) - 1 := by
+        intro x hx
+        obtain ⟨c, hc, rfl⟩ := List.mem_map.mp hx
+        obtain ⟨p, hp, rfl⟩ := List.mem_map.mp hc
+        have := hLbound p hp
+        omega
+      have htop : ((lines.length : Int) - 1) ∈ (L.map (·.1)).map (·.2) := by
+        have hrow0 : rows[lines.length - 1]? = some (lines[0]'hlinesne) := by
+          have hlt : lines.length - 1 < lines.reverse.length := by simp; omega
+          show lines.reverse[lines.length - 1]? = _
+          rw [List.getElem?_reverse (by omega)]
+          have : lines.length - 1 - (lines.length - 1) = 0 := by omega
+          simp [this]
+        obtain ⟨t, ht, htd⟩ := hrowdata _ (List.getElem_mem hlinesne)
+        obtain ⟨c, hc⟩ := List.getElem?_of_mem ht
+        have := hcelldata (lines.length - 1) c _ t hrow0 hc htd
+        have hmem := get?_some_mem L _ t this
+        refine List.mem_map.mpr ⟨((c : Int), ((lines.length - 1 : Nat) : Int)), List.mem_map.mpr ⟨_, hmem, rfl⟩, ?_⟩
+        simp only []; omega
+      have := maxD_eq 0 ((lines.length : Int) - 1) _ htop hub
+      omega
+    -- a drawn row, compared with the text row
+    let wrow : Int → List String := fun ln => (pyRange W).map (fun c => tokenAt L (c, ln))
+    have hwtok : ∀ (l c : Nat) (row : List String), rows[l]? = some row →
+        tokenAt L ((c : Int), (l : Int)) = (row[c]?).getD PLACEHOLDER := by
+      intro l c row h1
+      unfold tokenAt
+      rw [hget, hrowsLookup, if_pos ⟨by omega, by omega⟩]
+      simp only [Int.toNat_natCast, h1, Option.bind_some]
+      cases h2 : row[c]? with
+      | none => simp [Option.filter]
+      | some t =>
+        rcases htok row (by
+            have := List.mem_of_getElem? h1
+            exact List.mem_reverse.mp this) t (List.mem_of_getElem? h2) with h | h
+        · subst h; simp [Option.filter]
+        · have : (t != PLACEHOLDER) = true := by simpa using h.2.2.1
+          simp [Option.filter, this, h.2.1]
+    have hrt : ∀ (l : Nat) (row : List String), rows[l]? = some row →
+        removeTrailing (wrow (l : Int)) = removeTrailing row := by
+      intro l row h1
+      have hw1 : wrow (l : Int) = (row ++ List.replicate W.toNat PLACEHOLDER).take W.toNat := by
+        apply List.ext_getElem?
+        intro i
+        simp only [wrow, List.getElem?_map, pyRange_get]
+        by_cases hi : (i : Int) < W
+        · have hi' : i < W.toNat := by omega
+          simp only [hi, ↓reduceIte, Option.map_some]
+          rw [hwtok l i row h1, List.getElem?_take, if_pos hi']
+          by_cases hil : i < row.length
+          · rw [List.getElem?_append_left hil]; simp [List.getElem?_eq_getElem hil]
+          · have hge : row.length ≤ i := by omega
+            rw [List.getElem?_append_right hge, List.getElem?_eq_none hge]
+            have : i - row.length < W.toNat := by omega
+            simp [List.getElem?_replicate, this]
+        · have hi' : ¬ i < W.toNat := by omega
+          simp only [hi, ↓reduceIte, Option.map_none]
+          rw [List.getElem?_take, if_neg hi']
+      have hdropdash : ∀ t ∈ row.drop W.toNat, t = PLACEHOLDER := by
+        intro t ht
+        obtain ⟨i, hi⟩ := List.getElem?_of_mem ht
+        rw [List.getElem?_drop] at hi
+        rcases htok row (by have := List.mem_of_getElem? h1; exact List.mem_reverse.mp this) t
+            (List.mem_of_getElem? hi) with h | h
+        · exact h
+        · exfalso
+          have hg := hcelldata l (W.toNat + i) row t h1 hi h
+          have hmem := get?_some_mem L _ t hg
+          have := hbW _ hmem
+          simp only at this
+          omega
+      rw [hw1, List.take_append]
+      have h2 : removeTrailing (row.take W.toNat ++ (List.replicate W.toNat PLACEHOLDER).take (W.toNat - row.length))
+          = removeTrailing (row.take W.toNat) := by
+        apply removeTrailing_append_placeholders
+        intro t ht
+        have := List.mem_of_mem_take ht
+        exact (List.mem_replicate.mp this).2
+      rw [h2]
+      conv => rhs; rw [← List.take_append_drop W.toNat row]
+      rw [removeTrailing_append_placeholders _ _ hdropdash]
+    -- the cleaning loop drops nothing
+    generalize hl0 : ((pyRange H).reverse.map (fun ln => (pyRange W).map (fun c => tokenAt L (cellOf .cart M o c ln)))) = lines0 at hw
+    have hl0' : lines0 = (pyRange H).reverse.map wrow := by rw [← hl0]; rfl
+    cases hcl : cleanLines lines0 true [] with
+    | none => simp [hcl] at hw
+    | some r =>
+      simp only [hcl] at hw
+      by_cases hre : r.isEmpty = true
+      · simp [hre] at hw
+      simp only [hre, Bool.false_eq_true, ↓reduceIte, Option.some.injEq] at hw
+      have hml : m2.lines = r := by rw [← hw]
+      obtain ⟨kd, hkl, hdash, hr', _⟩ := cleanLines_true lines0 r hcl
+      have hHn : H.toNat = lines.length := by omega
+      have hkd : kd = 0 := by
+        rcases Nat.eq_zero_or_pos kd with h | h
+        · exact h
+        · exfalso
+          -- the first drawn row is the top text row, which holds data
+          have hfirst : lines0[0]? = some (wrow ((lines.length - 1 : Nat) : Int)) := by
+            rw [hl0', List.getElem?_map, List.getElem?_reverse (by simp [pyRange_length]; omega)]
+            simp only [pyRange_length, hHn]
+            have : lines.length - 1 - 0 = lines.length - 1 := by omega
+            rw [this, pyRange_get]
+            have : ((lines.length - 1 : Nat) : Int) < H := by omega
+            simp [this]
+          have hin : wrow ((lines.length - 1 : Nat) : Int) ∈ lines0.take kd := by
+            have : (lines0.take kd)[0]? = some (wrow ((lines.length - 1 : Nat) : Int)) := by
+              rw [List.getElem?_take, if_pos h]; exact hfirst
+            exact List.mem_of_getElem? this
+          have hd := hdash _ hin
+          have hrow0 : rows[lines.length - 1]? = some (lines[0]'hlinesne) := by
+            show lines.reverse[lines.length - 1]? = _
+            rw [List.getElem?_reverse (by omega)]
+            have : lines.length - 1 - (lines.length - 1) = 0 := by omega
+            simp [this]
+          obtain ⟨t, ht, htd⟩ := hrowdata _ (List.getElem_mem hlinesne)
+          obtain ⟨c, hc⟩ := List.getElem?_of_mem ht
+          have hg := hcelldata (lines.length - 1) c _ t hrow0 hc htd
+          have hcW := hbW _ (get?_some_mem L _ t hg)
+          simp only at hcW
+          have htin : t ∈ wrow ((lines.length - 1 : Nat) : Int) := by
+            have : (wrow ((lines.length - 1 : Nat) : Int))[c]? = some t := by
+              simp only [wrow, List.getElem?_map, pyRange_get, hcW, ↓reduceIte, Option.map_some]
+              rw [hwtok (lines.length - 1) c _ hrow0, hc]; rfl
+            exact List.mem_of_getElem? this
+          unfold rowAllDash at hd
+          simp only [Bool.and_eq_true] at hd
+          have hall := List.all_eq_true.mp hd.2 t htin
+          rw [htd.2.2.2] at hall; cases hall
+      -- assemble
+      rw [hml, hr', hkd, List.drop_zero, hl0']
+      have hrowsrev : lines = rows.reverse := by simp [rows]
+      conv => rhs; rw [hrowsrev]
+      rw [List.map_map, List.map_reverse, List.map_reverse]
+      congr 1
+      have hrows := list_eq_map_pyRange rows ([] : List String)
+      conv => rhs; rw [hrows, List.map_map]
+      rw [hrowslen, ← hHn]
+      have hHH : ((H.toNat : Nat) : Int) = H := by omega
+      rw [hHH]
+      apply List.map_congr_left
+      intro l hl
+      simp only [pyRange, List.mem_map, List.mem_range] at hl
+      obtain ⟨i, hi, rfl⟩ := hl
+      have hil : i < rows.length := by omega
+      have hto : (Int.ofNat i).toNat = i := by simp
+      simp only [Function.comp_def, hto, List.getElem?_eq_getElem hil, Option.getD_some]
+      exact hrt i _ (List.getElem?_eq_getElem hil)
+
 section Examples
 /-! Non-vacuity: concrete instances of the hypotheses. -/
 private def exL : Labels := [((0, 0), "A"), ((1, 0), "F1"), ((0, 1), "C"), ((2, 1), "B")]
@@ -1016,6 +1547,20 @@ example : IsData "A" ∧ IsData "F1" := by unfold IsData; decide
 example : (gridContentsToAscii .cart exL).map (·.lines) = some [["C", "-", "B"], ["A", "F1"]] := by decide +kernel
 /-- two distinct text cells of a third-core map (lines counted from the bottom) -/
 example : cellOf .third 0 0 1 4 ≠ cellOf .third 0 0 0 5 := by decide
+private def exText : List (List String) := [["C", "-", "B", "-"], ["A", "F1"]]
+/-- hypotheses of `cart_read_write_id` for a two-line text (tokens are data or placeholders, every line holds data) -/
+example : (∀ row ∈ exText, ∀ t ∈ row, t = PLACEHOLDER ∨ IsData t) ∧ (∀ row ∈ exText, ∃ t ∈ row, IsData t) := by
+  unfold IsData; decide
+example : ((readAscii .cart exText).bind (fun m => gridContentsToAscii .cart (dataOf m.labels))).map (·.lines) =
+    some [["C", "-", "B"], ["A", "F1"]] := by decide +kernel
+private def exThird : Labels :=
+  [((0, 0), "A"), ((0, 1), "B"), ((0, 2), "C"), ((1, 0), "D"), ((1, 1), "E"), ((2, -1), "F"), ((2, 0), "G")]
+/-- hypotheses of `third_write_read_id_partial` for the complete third-core map of radius 2 (7 cells) -/
+example : (∀ p ∈ exThird, p.1.1 ≤ 2 ∧ p.1.1 + p.1.2 ≤ 2 ∧ p.1.2 ≤ 2) ∧
+    (∀ p ∈ exThird, 0 ≤ p.1.1 + 2 * p.1.2 ∧ (thirdBase (p.1.1 + 2 * p.1.2)).1 ≤ p.1.1) ∧
+    ((2, 0), "G") ∈ exThird ∧ ((1, 1), "E") ∈ exThird := by decide
+example : (gridContentsToAscii .third exThird).map (·.lines) =
+    some [["C"], ["E"], ["B", "G"], ["D"], ["A", "F"]] := by decide +kernel
 private def exHex : Labels :=
   [((0, 0), "A"), ((1, 0), "B"), ((-1, 0), "C"), ((0, 1), "D"), ((0, -1), "E"), ((1, -1), "F"), ((-1, 1), "G")]
 /-- hypotheses of `write_read_complete_partial` for a complete 1-ring tips-up hexagon: dimensions, window,
